@@ -210,6 +210,12 @@ def sampling(repo, chk):
     if not allocs and not zero_allocs:
         chk.unsure('C04.1', 'R4', fn.site(), 'index buffer', 'no index buffer allocation found in stratified_subsampling')
         return
+    # the buffer holds ROW POSITIONS: its element type must represent every position exactly (float32 is exact only up to 2**24, int16 up to 32767)
+    for al in allocs + zero_allocs:
+        dt = next((k.value for k in al.value.keywords if k.arg == 'dtype'), None)
+        if dt is not None and ast.unparse(dt).split('.')[-1].strip("'\"") in ('float32', 'float16', 'half', 'single', 'int16', 'int8', 'uint8', 'uint16', 'short', 'byte'):
+            chk.bad('C04.1c', 'R8', fn.site(al), ast.unparse(al), f'the index buffer of the sample is allocated as {ast.unparse(dt)}: row positions beyond the exact range of that type are rounded / wrapped, so other rows '
+                    'than the first rows of each stratum are gathered (float32 is exact only up to 2**24)')
     for al in allocs:
         B = al.targets[0].id
         # cursor discipline
@@ -219,6 +225,21 @@ def sampling(repo, chk):
         why = ''
         for st in stores:
             sl = st.targets[0].slice
+            if isinstance(sl, ast.Name):
+                # one entry written at the cursor, the cursor advanced by one right after it (in the same block): B[c] = v; c += 1
+                c = sl.id
+                blk = par.get(st)
+                seq = next((getattr(blk, f_) for f_ in ('body', 'orelse', 'finalbody') if st in getattr(blk, f_, [])), [])
+                after = seq[seq.index(st) + 1:] if st in seq else []
+                adv = [a for a in after if isinstance(a, ast.AugAssign) and isinstance(a.target, ast.Name) and a.target.id == c]
+                if (cursor in (None, c)) and len(adv) == 1 and isinstance(adv[0].op, ast.Add) and isinstance(adv[0].value, ast.Constant) and adv[0].value.value == 1 \
+                        and not any(isinstance(x, ast.Name) and x.id == c and isinstance(x.ctx, ast.Store) for a in after[:after.index(adv[0])] for x in ast.walk(a)):
+                    cursor = c
+                    continue
+                if cursor in (None, c) and len(adv) == 1 and any(isinstance(a, ast.AugAssign) and isinstance(a.target, ast.Name) and a.target.id == c for a in own_nodes(fn.node)):
+                    chk.bad('C04.1a', 'R4', fn.site(adv[0]), ast.unparse(adv[0]), f'after the store {ast.unparse(st.targets[0])} of ONE entry the cursor is advanced by {ast.unparse(adv[0].value)}: the prefix [:{c}] then contains entries that were never written')
+                    ok_cursor, why = False, None
+                    break
             if not (isinstance(sl, ast.Slice) and isinstance(sl.lower, ast.Name) and sl.step is None and sl.upper is not None):
                 ok_cursor, why = False, f'store {ast.unparse(st.targets[0])} is not a slice store at a cursor'
                 break
@@ -250,6 +271,13 @@ def sampling(repo, chk):
             body = getattr(blk, 'body', [])
             after = body[body.index(st) + 1:] if st in body else []
             adv = [a for a in after if isinstance(a, ast.AugAssign) and isinstance(a.target, ast.Name) and a.target.id == c]
+            # `c = <end of the slice>` is the same advance written as an assignment
+            set_to_end = [a for a in after if isinstance(a, ast.Assign) and len(a.targets) == 1 and isinstance(a.targets[0], ast.Name) and a.targets[0].id == c]
+            if not adv and len(set_to_end) == 1 and (ast.unparse(set_to_end[0].value) == ast.unparse(sl.upper) or term_of(fn, set_to_end[0].value, inline=True) == up):
+                by_assignment = getattr(fn, '_c04_by_assignment', set())
+                by_assignment.add(id(set_to_end[0]))
+                fn._c04_by_assignment = by_assignment
+                continue
             if not (len(adv) == 1 and isinstance(adv[0].op, ast.Add) and term_of(fn, adv[0].value, inline=True) in lens):
                 ok_cursor, why = False, f'the cursor {c} is not advanced by exactly the number of stored entries after the store'
                 if len(adv) == 1:
@@ -257,8 +285,9 @@ def sampling(repo, chk):
                     why = None
                 break
         if ok_cursor:
-            inits = [n for n in own_nodes(fn.node) if isinstance(n, ast.Assign) and isinstance(n.targets[0], ast.Name) and n.targets[0].id == cursor]
-            others = [n for n in own_nodes(fn.node) if isinstance(n, ast.AugAssign) and isinstance(n.target, ast.Name) and n.target.id == cursor]
+            by_asg = getattr(fn, '_c04_by_assignment', set())
+            inits = [n for n in own_nodes(fn.node) if isinstance(n, ast.Assign) and isinstance(n.targets[0], ast.Name) and n.targets[0].id == cursor and id(n) not in by_asg]
+            others = [n for n in own_nodes(fn.node) if (isinstance(n, ast.AugAssign) and isinstance(n.target, ast.Name) and n.target.id == cursor) or id(n) in by_asg]
             if not (len(inits) == 1 and isinstance(inits[0].value, ast.Constant) and inits[0].value.value == 0 and len(others) == len(stores)):
                 ok_cursor, why = False, f'the cursor {cursor} must start at 0 and be modified only by the advance after each store'
                 if len(inits) == 1 and isinstance(inits[0].value, ast.Constant) and inits[0].value.value != 0:
@@ -317,7 +346,13 @@ def sampling(repo, chk):
         st_ = term_of(fn, size, inline=True) if size is not None else None
         n_expr = f'int({rp} * len({Xp}))'
         quota = f'int({n_expr} / len({vp}))'
-        ok_size = st_ in (E(n_expr), E(f'{quota} * len({vp})'), E(f'len({vp}) * {quota}'), E(f'len({Xp})'))
+        quota2 = f'{n_expr} // len({vp})'           # for these non-negative integers a // b is int(a / b)
+        ok_size = st_ in (E(n_expr), E(f'{quota} * len({vp})'), E(f'len({vp}) * {quota}'), E(f'len({Xp})'), E(f'({quota2}) * len({vp})'), E(f'len({vp}) * ({quota2})'))
+        # a buffer of one stratum (size = the per-value quota, filled by a scan that stops at the quota) is another buffer than the index buffer of the sample
+        if not ok_size and st_ == E(quota) and not any(isinstance(x, ast.Subscript) and isinstance(x.value, ast.Name) and x.value.id in (Xp, Yp) and any(isinstance(y, ast.Name) and y.id == B for y in ast.walk(x.slice))
+                                                       for x in own_nodes(fn.node)):
+            chk.ok('C04.2a', 'R4', fn.site(al), ast.unparse(al), 'a per-stratum buffer of quota entries (not the index buffer of the sample)')
+            continue
         chk.expect(ok_size, 'C04.2a', 'R4', fn.site(al), ast.unparse(al), 'allocation holds all writes (#values * quota <= int(r*n))', f'the buffer size must be int(r*n) (or #values*quota): found {show(st_)[:100] if st_ else None}; slice stores beyond the end are silently truncated / out of bounds')
     if not allocs:
         chk.ok('C04.1b', 'R4', fn.site(zero_allocs[0]), ast.unparse(zero_allocs[0]), 'index buffer is zero-initialised (no uninitialised memory)')
@@ -473,7 +508,18 @@ def stratum_buffers(repo, chk):
 
     def lenform(t):
         if t[0] == 'attr' and t[2] == 'size':
-            return ('call', ('name', 'len'), (t[1],), ())
+            t = ('call', ('name', 'len'), (t[1],), ())
+        # len(V[rows]) / len(V[rows].astype(..)) - a vector gathered at the rows of the stratum has as many entries as there are rows
+        if t[0] == 'call' and t[1] == ('name', 'len') and len(t[2]) == 1:
+            g = t[2][0]
+            while g[0] == 'call' and g[1][0] == 'attr' and g[1][2] in ('astype', 'copy', 'ravel', 'flatten'):
+                g = g[1][1]
+            if g[0] == 'sub' and g[1][0] == 'name' and g[1][1] in fn.params:
+                idx = g[2]
+                # V[np.where(..)] (the 1-tuple) gathers at its only element
+                if idx[0] == 'call' and idx[1] in (('lib', 'numpy.where'), ('lib', 'numpy.nonzero')):
+                    idx = ('sub', idx, ('num', 0))
+                return ('call', ('name', 'len'), (idx,), ())
         return t
     n = 0
     candidates = 0
